@@ -8,6 +8,6 @@ for n in $names; do
   out=$(./tools_try_seed.sh /verif/seeded/$n $prop 2>&1)
   nv=$(echo "$out" | grep -c '^VIOLATION')
   first=$(echo "$out" | grep -A1 '^VIOLATION' | grep detail | head -1 | cut -c1-200)
-  tool=$(echo "$out" | grep -c 'TOOL ERROR')
+  tool=$(echo "$out" | grep -c -E 'TOOL ERROR|patch does not apply|/repo dirty')
   echo "$n -> $prop: violations=$nv toolerr=$tool $first" | tee -a /verif/work/seeds.log
 done
